@@ -89,6 +89,14 @@ def checkTrans (c : Case) : VM Unit := do
             let t1 ← Transition.updateVehicle nw tr v n1 [] tours
             Transition.updateVehicle nw t1 v2 n2 [(v, n1)] tours
           | _, _ => .error (.panic "no tour")
+        | "tupdrm" =>
+          -- one batch: v gets a new tour, then v2 is removed with the "updated tours first" overlay
+          let v2 := vehTok (rest.getD 2 "v0")
+          match assocGet? tours' v with
+          | some n1 => do
+            let t1 ← Transition.updateVehicle nw tr v n1 [] tours
+            Transition.removeVehicle nw t1 v2 [(v, n1)] tours
+          | none => .error (.panic "no tour")
         | "tupdate" => match assocGet? tours' v with
           | some nt => Transition.updateVehicle nw tr v nt [] tours
           | none => .error (.panic "no tour")
@@ -102,6 +110,7 @@ def checkTrans (c : Case) : VM Unit := do
         | _ => .error (.err "unknown")
       let detached' := match kind with
         | "tremove" => v :: detached
+        | "tupdrm" => vehTok (rest.getD 2 "v0") :: detached
         | "taddend" | "taddown" => detached.filter (· != v)
         | _ => detached
       match newId with
